@@ -190,6 +190,8 @@ VARIANTS = [
        ( "assert not ( self.attribute[str(a_id)].mask & Attribute.MASK_GA_SNG ),\\\n \"Attribute not available for %s request\" % ( nam )", "result += self.attribute[str(a_id)].produce()\n data.get_attribute_single = dotdict()" ),
        ( "pass", "assert not ( self.attribute[str(a_id)].mask & Attribute.MASK_GA_SNG ), 'not available'\n                    result += self.attribute[str(a_id)].produce()\n                    data.get_attribute_single = dotdict()" ),
        fires=[ 'D-VALIDATE' ], why='round 13 C05/1' ),
+    V( 'ga-single-reply-size-tested-in-get-arm', DEVICE, "result += self.attribute[str(a_id)].produce()\n data.get_attribute_single = dotdict()", "result     += self.attribute[str(a_id)].produce()\n                    assert len( result ) < 65536, 'reply too large'\n                    data.get_attribute_single = dotdict()", silent=[ 'D-VALIDATE' ] ),
+    V( 'ga-single-reply-size-tested-ahead-of-read', DEVICE, "result += self.attribute[str(a_id)].produce()\n data.get_attribute_single = dotdict()", "assert len( result ) < 65536, 'reply too large'\n                    result     += self.attribute[str(a_id)].produce()\n                    data.get_attribute_single = dotdict()", silent=[ 'D-VALIDATE' ] ),
     V( 'sa-single-mask-in-both-arms', DEVICE,
        ( "assert not ( self.attribute[str(a_id)].mask & Attribute.MASK_GA_SNG ),\\\n \"Attribute not available for %s request\" % ( nam )", "result += self.attribute[str(a_id)].produce()\n data.get_attribute_single = dotdict()", "siz = att.parser.struct_calcsize" ),
        ( "pass", "assert not ( self.attribute[str(a_id)].mask & Attribute.MASK_GA_SNG ), 'not available'\n                    result += self.attribute[str(a_id)].produce()\n                    data.get_attribute_single = dotdict()",
@@ -201,6 +203,7 @@ VARIANTS = [
        ( "data.service |= 0x80\n data.status = 8 # Service not supported, if anything blows up\n if data.service == self.FWD_CLOS_RPY:", "self.forward_open( data, addr=addr )\n data.status = 0" ),
        ( "data.status	= 8\n                if data.service == self.FWD_CLOS_REQ:", "self.forward_open( data, addr=addr )\n                data.service   |= 0x80\n                data.status	= 0" ),
        fires=[ 'P-REPLYBIT' ], why='round 13 C06/1' ),
+    V( 'object-request-logs-ahead-of-recognition', DEVICE, "data.status		= 0x08		# Service not supported, if not recognized or fail to access\n data.pop( 'status_ext', None )", "data.status		= 0x08\n            data.pop( 'status_ext', None )\n            log.info( 'recognising %r', data.get( 'service' ))", silent=[ 'P-REPLYBIT' ] ),
     V( 'forward-replybit-right-behind-status', DEVICE,
        "data.service |= 0x80\n data.status = 8 # Service not supported, if anything blows up",
        "data.status	= 8\n                data.service   |= 0x80",
